@@ -221,6 +221,11 @@ inductive CSrc (φ : Type) where
   | terms (f : φ)
   | hist (f : φ) (interval : Rat) (f64col : Bool)
 
+/-- a histogram source reads the numeric values of its field whatever the column type -/
+def CSrc.ideal {φ : Type} : CSrc φ → CSrc φ
+  | .terms f => .terms f
+  | .hist f interval _ => .hist f interval true
+
 /-- bucket aggregations -/
 inductive BSpec (φ κ : Type) where
   | terms (f : φ) (size : Option Nat) (minDoc : Nat) (missing : Option κ)
@@ -230,6 +235,12 @@ inductive BSpec (φ κ : Type) where
       (missing : Option Rat)
   | filter (p : Pred φ κ)
   | composite (srcs : List (CSrc φ)) (size : Nat) (after : Option (List (Part κ)))
+
+/-- the request as the reference semantics reads it (composite histogram sources see every
+numeric column) -/
+def BSpec.ideal {φ κ : Type} : BSpec φ κ → BSpec φ κ
+  | .composite srcs size after => .composite (srcs.map CSrc.ideal) size after
+  | b => b
 
 mutual
 /-- aggregation tree (children are positional: the code keeps them in a `BTreeMap` by name and
@@ -516,7 +527,7 @@ def agg : Agg φ κ → List (Doc φ κ) → Node κ
     let vs := sortBy ratLt (docs.flatMap (numVals f m))
     .table (ts.map (fun t => (t, percentileRankOf vs t)))
   | .bucket b subs, docs =>
-    let r := specPost b (rawBuckets b (aggs subs) docs)
+    let r := specPost b (rawBuckets b.ideal (aggs subs) docs)
     .buckets r.1 r.2
 def aggs : Aggs φ κ → List (Doc φ κ) → List (Node κ)
   | .nil, _ => []
